@@ -140,4 +140,127 @@ package agent
 //@       logAt[uint64]("ipcsent", n0) == reqHeader.Seq && logAt[string]("ipcsenterr", n0) == unsupportedCommand
 //@ end
 
+// ---------------------------------------------------------------- configuration merging (C31)
+
+//@ pure func tagsHas(c *Config, k string) bool { return mapHas(c.Tags, k) }
+//@ pure func wfConfig(c *Config) bool {
+//@   return c != nil && allocated(c) && (c.Tags != nil ==> allocatedRef(c.Tags)) && len(c.EventHandlers) >= 0 && (nilSlice(c.EventHandlers) ==> len(c.EventHandlers) == 0) && (nilSlice(c.EventHandlers) || arrayAllocated(c.EventHandlers)) && len(c.StartJoin) >= 0 && (nilSlice(c.StartJoin) ==> len(c.StartJoin) == 0) && (nilSlice(c.StartJoin) || arrayAllocated(c.StartJoin)) && len(c.RetryJoin) >= 0 && (nilSlice(c.RetryJoin) ==> len(c.RetryJoin) == 0) && (nilSlice(c.RetryJoin) || arrayAllocated(c.RetryJoin))
+//@ }
+
+//@ func MergeConfig(a, b *Config) (r *Config)
+//@   requires wf: wfConfig(a) && wfConfig(b)
+//@   ensures fresh_result [C31]: r != nil && !old(allocated(r)) && wfConfig(r)
+//@   ensures nodename [C31]: r.NodeName == ite(b.NodeName != "", b.NodeName, a.NodeName)
+//@   ensures role [C31]: r.Role == ite(b.Role != "", b.Role, a.Role)
+//@   ensures bindaddr [C31]: r.BindAddr == ite(b.BindAddr != "", b.BindAddr, a.BindAddr)
+//@   ensures advertiseaddr [C31]: r.AdvertiseAddr == ite(b.AdvertiseAddr != "", b.AdvertiseAddr, a.AdvertiseAddr)
+//@   ensures encryptkey [C31]: r.EncryptKey == ite(b.EncryptKey != "", b.EncryptKey, a.EncryptKey)
+//@   ensures loglevel [C31]: r.LogLevel == ite(b.LogLevel != "", b.LogLevel, a.LogLevel)
+//@   ensures rpcaddr [C31]: r.RPCAddr == ite(b.RPCAddr != "", b.RPCAddr, a.RPCAddr)
+//@   ensures rpcauthkey [C31]: r.RPCAuthKey == ite(b.RPCAuthKey != "", b.RPCAuthKey, a.RPCAuthKey)
+//@   ensures profile [C31]: r.Profile == ite(b.Profile != "", b.Profile, a.Profile)
+//@   ensures snapshotpath [C31]: r.SnapshotPath == ite(b.SnapshotPath != "", b.SnapshotPath, a.SnapshotPath)
+//@   ensures discover [C31]: r.Discover == ite(b.Discover != "", b.Discover, a.Discover)
+//@   ensures interface [C31]: r.Interface == ite(b.Interface != "", b.Interface, a.Interface)
+//@   ensures tagsfile [C31]: r.TagsFile == ite(b.TagsFile != "", b.TagsFile, a.TagsFile)
+//@   ensures keyringfile [C31]: r.KeyringFile == ite(b.KeyringFile != "", b.KeyringFile, a.KeyringFile)
+//@   ensures syslogfacility [C31]: r.SyslogFacility == ite(b.SyslogFacility != "", b.SyslogFacility, a.SyslogFacility)
+//@   ensures statsiteaddr [C31]: r.StatsiteAddr == ite(b.StatsiteAddr != "", b.StatsiteAddr, a.StatsiteAddr)
+//@   ensures statsdaddr [C31]: r.StatsdAddr == ite(b.StatsdAddr != "", b.StatsdAddr, a.StatsdAddr)
+//@   ensures mdns_interface [C31]: r.MDNS.Interface == ite(b.MDNS.Interface != "", b.MDNS.Interface, a.MDNS.Interface)
+//@   ensures disablecoordinates [C31]: r.DisableCoordinates == (a.DisableCoordinates || b.DisableCoordinates)
+//@   ensures replayonjoin [C31]: r.ReplayOnJoin == (a.ReplayOnJoin || b.ReplayOnJoin)
+//@   ensures leaveonterm [C31]: r.LeaveOnTerm == (a.LeaveOnTerm || b.LeaveOnTerm)
+//@   ensures skipleaveonint [C31]: r.SkipLeaveOnInt == (a.SkipLeaveOnInt || b.SkipLeaveOnInt)
+//@   ensures disablenameresolution [C31]: r.DisableNameResolution == (a.DisableNameResolution || b.DisableNameResolution)
+//@   ensures enablesyslog [C31]: r.EnableSyslog == (a.EnableSyslog || b.EnableSyslog)
+//@   ensures rejoinafterleave [C31]: r.RejoinAfterLeave == (a.RejoinAfterLeave || b.RejoinAfterLeave)
+//@   ensures validatenodenames [C31]: r.ValidateNodeNames == (a.ValidateNodeNames || b.ValidateNodeNames)
+//@   ensures msgpackusenewtimeformat [C31]: r.MsgpackUseNewTimeFormat == (a.MsgpackUseNewTimeFormat || b.MsgpackUseNewTimeFormat)
+//@   ensures mdns_switches [C31]: r.MDNS.DisableIPv4 == (a.MDNS.DisableIPv4 || b.MDNS.DisableIPv4) && r.MDNS.DisableIPv6 == (a.MDNS.DisableIPv6 || b.MDNS.DisableIPv6)
+//@   ensures reconnectinterval [C31]: r.ReconnectInterval == ite(b.ReconnectInterval != 0, b.ReconnectInterval, a.ReconnectInterval)
+//@   ensures reconnecttimeout [C31]: r.ReconnectTimeout == ite(b.ReconnectTimeout != 0, b.ReconnectTimeout, a.ReconnectTimeout)
+//@   ensures tombstonetimeout [C31]: r.TombstoneTimeout == ite(b.TombstoneTimeout != 0, b.TombstoneTimeout, a.TombstoneTimeout)
+//@   ensures retrymaxattempts [C31]: r.RetryMaxAttempts == ite(b.RetryMaxAttempts != 0, b.RetryMaxAttempts, a.RetryMaxAttempts)
+//@   ensures retryinterval [C31]: r.RetryInterval == ite(b.RetryInterval != 0, b.RetryInterval, a.RetryInterval)
+//@   ensures queryresponsesizelimit [C31]: r.QueryResponseSizeLimit == ite(b.QueryResponseSizeLimit != 0, b.QueryResponseSizeLimit, a.QueryResponseSizeLimit)
+//@   ensures querysizelimit [C31]: r.QuerySizeLimit == ite(b.QuerySizeLimit != 0, b.QuerySizeLimit, a.QuerySizeLimit)
+//@   ensures usereventsizelimit [C31]: r.UserEventSizeLimit == ite(b.UserEventSizeLimit != 0, b.UserEventSizeLimit, a.UserEventSizeLimit)
+//@   ensures broadcasttimeout [C31]: r.BroadcastTimeout == ite(b.BroadcastTimeout != 0, b.BroadcastTimeout, a.BroadcastTimeout)
+//@   ensures protocol [C31]: r.Protocol == ite(b.Protocol > 0, b.Protocol, a.Protocol)
+//@   ensures compression_from_later [C31]: r.EnableCompression == b.EnableCompression
+//@   # tags: union, the later source wins
+//@   ensures tags_union [C31]: forall(func(k string) bool { return tagsHas(r, k) == (tagsHas(a, k) || tagsHas(b, k)) })
+//@   ensures tags_later_wins [C31]: forall(func(k string) bool { return (tagsHas(b, k) ==> mapAt(r.Tags, k) == mapAt(b.Tags, k)) &&
+//@       (!tagsHas(b, k) && tagsHas(a, k) ==> mapAt(r.Tags, k) == mapAt(a.Tags, k)) })
+//@   ensures eventhandlers_concatenated [C31]: len(r.EventHandlers) == len(a.EventHandlers)+len(b.EventHandlers) &&
+//@       forall(func(i int) bool { return 0 <= i && i < len(a.EventHandlers) ==> r.EventHandlers[i] == a.EventHandlers[i] }) &&
+//@       forall(func(i int) bool { return len(a.EventHandlers) <= i && i < len(r.EventHandlers) ==> r.EventHandlers[i] == b.EventHandlers[i-len(a.EventHandlers)] })
+//@   ensures startjoin_concatenated [C31]: len(r.StartJoin) == len(a.StartJoin)+len(b.StartJoin) &&
+//@       forall(func(i int) bool { return 0 <= i && i < len(a.StartJoin) ==> r.StartJoin[i] == a.StartJoin[i] }) &&
+//@       forall(func(i int) bool { return len(a.StartJoin) <= i && i < len(r.StartJoin) ==> r.StartJoin[i] == b.StartJoin[i-len(a.StartJoin)] })
+//@   ensures retryjoin_concatenated [C31]: len(r.RetryJoin) == len(a.RetryJoin)+len(b.RetryJoin) &&
+//@       forall(func(i int) bool { return 0 <= i && i < len(a.RetryJoin) ==> r.RetryJoin[i] == a.RetryJoin[i] }) &&
+//@       forall(func(i int) bool { return len(a.RetryJoin) <= i && i < len(r.RetryJoin) ==> r.RetryJoin[i] == b.RetryJoin[i-len(a.RetryJoin)] })
+//@   # no string list that existed before is written (the result's lists are new arrays)
+//@   ensures frame_lists [C31]: allocatedElemsKept(a.StartJoin)
+//@   # merging never modifies its inputs
+//@   ensures first_input_settings_untouched [C31]:
+//@       a.NodeName == old(a.NodeName) && a.Role == old(a.Role) && a.BindAddr == old(a.BindAddr) && a.AdvertiseAddr == old(a.AdvertiseAddr) && a.EncryptKey == old(a.EncryptKey) && a.LogLevel == old(a.LogLevel) &&
+//@       a.RPCAddr == old(a.RPCAddr) && a.RPCAuthKey == old(a.RPCAuthKey) && a.Profile == old(a.Profile) && a.SnapshotPath == old(a.SnapshotPath) && a.Discover == old(a.Discover) && a.Interface == old(a.Interface) &&
+//@       a.TagsFile == old(a.TagsFile) && a.KeyringFile == old(a.KeyringFile) && a.SyslogFacility == old(a.SyslogFacility) && a.StatsiteAddr == old(a.StatsiteAddr) && a.StatsdAddr == old(a.StatsdAddr) && a.DisableCoordinates == old(a.DisableCoordinates) &&
+//@       a.ReplayOnJoin == old(a.ReplayOnJoin) && a.LeaveOnTerm == old(a.LeaveOnTerm) && a.SkipLeaveOnInt == old(a.SkipLeaveOnInt) && a.DisableNameResolution == old(a.DisableNameResolution) && a.EnableSyslog == old(a.EnableSyslog) && a.RejoinAfterLeave == old(a.RejoinAfterLeave) &&
+//@       a.ValidateNodeNames == old(a.ValidateNodeNames) && a.MsgpackUseNewTimeFormat == old(a.MsgpackUseNewTimeFormat) && a.ReconnectInterval == old(a.ReconnectInterval) && a.ReconnectTimeout == old(a.ReconnectTimeout) && a.TombstoneTimeout == old(a.TombstoneTimeout) && a.RetryMaxAttempts == old(a.RetryMaxAttempts) &&
+//@       a.RetryInterval == old(a.RetryInterval) && a.QueryResponseSizeLimit == old(a.QueryResponseSizeLimit) && a.QuerySizeLimit == old(a.QuerySizeLimit) && a.UserEventSizeLimit == old(a.UserEventSizeLimit) && a.BroadcastTimeout == old(a.BroadcastTimeout) && a.Protocol == old(a.Protocol) &&
+//@       a.EnableCompression == old(a.EnableCompression) && a.MDNS.Interface == old(a.MDNS.Interface) && a.MDNS.DisableIPv4 == old(a.MDNS.DisableIPv4) && a.MDNS.DisableIPv6 == old(a.MDNS.DisableIPv6)
+//@   ensures second_input_settings_untouched [C31]:
+//@       b.NodeName == old(b.NodeName) && b.Role == old(b.Role) && b.BindAddr == old(b.BindAddr) && b.AdvertiseAddr == old(b.AdvertiseAddr) && b.EncryptKey == old(b.EncryptKey) && b.LogLevel == old(b.LogLevel) &&
+//@       b.RPCAddr == old(b.RPCAddr) && b.RPCAuthKey == old(b.RPCAuthKey) && b.Profile == old(b.Profile) && b.SnapshotPath == old(b.SnapshotPath) && b.Discover == old(b.Discover) && b.Interface == old(b.Interface) &&
+//@       b.TagsFile == old(b.TagsFile) && b.KeyringFile == old(b.KeyringFile) && b.SyslogFacility == old(b.SyslogFacility) && b.StatsiteAddr == old(b.StatsiteAddr) && b.StatsdAddr == old(b.StatsdAddr) && b.DisableCoordinates == old(b.DisableCoordinates) &&
+//@       b.ReplayOnJoin == old(b.ReplayOnJoin) && b.LeaveOnTerm == old(b.LeaveOnTerm) && b.SkipLeaveOnInt == old(b.SkipLeaveOnInt) && b.DisableNameResolution == old(b.DisableNameResolution) && b.EnableSyslog == old(b.EnableSyslog) && b.RejoinAfterLeave == old(b.RejoinAfterLeave) &&
+//@       b.ValidateNodeNames == old(b.ValidateNodeNames) && b.MsgpackUseNewTimeFormat == old(b.MsgpackUseNewTimeFormat) && b.ReconnectInterval == old(b.ReconnectInterval) && b.ReconnectTimeout == old(b.ReconnectTimeout) && b.TombstoneTimeout == old(b.TombstoneTimeout) && b.RetryMaxAttempts == old(b.RetryMaxAttempts) &&
+//@       b.RetryInterval == old(b.RetryInterval) && b.QueryResponseSizeLimit == old(b.QueryResponseSizeLimit) && b.QuerySizeLimit == old(b.QuerySizeLimit) && b.UserEventSizeLimit == old(b.UserEventSizeLimit) && b.BroadcastTimeout == old(b.BroadcastTimeout) && b.Protocol == old(b.Protocol) &&
+//@       b.EnableCompression == old(b.EnableCompression) && b.MDNS.Interface == old(b.MDNS.Interface) && b.MDNS.DisableIPv4 == old(b.MDNS.DisableIPv4) && b.MDNS.DisableIPv6 == old(b.MDNS.DisableIPv6)
+//@   ensures input_tags_untouched [C31]: same(a.Tags, old(a.Tags)) && same(b.Tags, old(b.Tags)) && forall(func(k string) bool {
+//@       return tagsHas(a, k) == old(tagsHas(a, k)) && mapAt(a.Tags, k) == old(mapAt(a.Tags, k)) && tagsHas(b, k) == old(tagsHas(b, k)) && mapAt(b.Tags, k) == old(mapAt(b.Tags, k)) })
+//@   ensures input_eventhandlers_untouched [C31]: sameSlice(a.EventHandlers, old(a.EventHandlers)) && sameSlice(b.EventHandlers, old(b.EventHandlers)) &&
+//@       forall(func(i int) bool { return 0 <= i && i < len(a.EventHandlers) ==> a.EventHandlers[i] == old(a.EventHandlers[i]) }) &&
+//@       forall(func(i int) bool { return 0 <= i && i < len(b.EventHandlers) ==> b.EventHandlers[i] == old(b.EventHandlers[i]) })
+//@   ensures input_startjoin_untouched [C31]: sameSlice(a.StartJoin, old(a.StartJoin)) && sameSlice(b.StartJoin, old(b.StartJoin)) &&
+//@       forall(func(i int) bool { return 0 <= i && i < len(a.StartJoin) ==> a.StartJoin[i] == old(a.StartJoin[i]) }) &&
+//@       forall(func(i int) bool { return 0 <= i && i < len(b.StartJoin) ==> b.StartJoin[i] == old(b.StartJoin[i]) })
+//@   ensures input_retryjoin_untouched [C31]: sameSlice(a.RetryJoin, old(a.RetryJoin)) && sameSlice(b.RetryJoin, old(b.RetryJoin)) &&
+//@       forall(func(i int) bool { return 0 <= i && i < len(a.RetryJoin) ==> a.RetryJoin[i] == old(a.RetryJoin[i]) }) &&
+//@       forall(func(i int) bool { return 0 <= i && i < len(b.RetryJoin) ==> b.RetryJoin[i] == old(b.RetryJoin[i]) })
+//@ end
+
+// two configurations agree on every merged setting, on their tags and on their lists
+//@ pure func equalSettings(x, y *Config) bool {
+//@   return x.NodeName == y.NodeName && x.Role == y.Role && x.BindAddr == y.BindAddr && x.AdvertiseAddr == y.AdvertiseAddr && x.EncryptKey == y.EncryptKey && x.LogLevel == y.LogLevel &&
+//@     x.RPCAddr == y.RPCAddr && x.RPCAuthKey == y.RPCAuthKey && x.Profile == y.Profile && x.SnapshotPath == y.SnapshotPath && x.Discover == y.Discover && x.Interface == y.Interface &&
+//@     x.TagsFile == y.TagsFile && x.KeyringFile == y.KeyringFile && x.SyslogFacility == y.SyslogFacility && x.StatsiteAddr == y.StatsiteAddr && x.StatsdAddr == y.StatsdAddr && x.DisableCoordinates == y.DisableCoordinates &&
+//@     x.ReplayOnJoin == y.ReplayOnJoin && x.LeaveOnTerm == y.LeaveOnTerm && x.SkipLeaveOnInt == y.SkipLeaveOnInt && x.DisableNameResolution == y.DisableNameResolution && x.EnableSyslog == y.EnableSyslog && x.RejoinAfterLeave == y.RejoinAfterLeave &&
+//@     x.ValidateNodeNames == y.ValidateNodeNames && x.MsgpackUseNewTimeFormat == y.MsgpackUseNewTimeFormat && x.ReconnectInterval == y.ReconnectInterval && x.ReconnectTimeout == y.ReconnectTimeout && x.TombstoneTimeout == y.TombstoneTimeout && x.RetryMaxAttempts == y.RetryMaxAttempts &&
+//@     x.RetryInterval == y.RetryInterval && x.QueryResponseSizeLimit == y.QueryResponseSizeLimit && x.QuerySizeLimit == y.QuerySizeLimit && x.UserEventSizeLimit == y.UserEventSizeLimit && x.BroadcastTimeout == y.BroadcastTimeout && x.Protocol == y.Protocol &&
+//@     x.EnableCompression == y.EnableCompression && x.MDNS.Interface == y.MDNS.Interface && x.MDNS.DisableIPv4 == y.MDNS.DisableIPv4 && x.MDNS.DisableIPv6 == y.MDNS.DisableIPv6
+//@ }
+//@ pure func equalTags(x, y *Config) bool {
+//@   return forall(func(k string) bool { return tagsHas(x, k) == tagsHas(y, k) && (tagsHas(x, k) ==> mapAt(x.Tags, k) == mapAt(y.Tags, k)) })
+//@ }
+//@ pure func equalLists(x, y *Config) bool {
+//@   return len(x.EventHandlers) == len(y.EventHandlers) && forall(func(i int) bool { return 0 <= i && i < len(x.EventHandlers) ==> x.EventHandlers[i] == y.EventHandlers[i] }) &&
+//@     len(x.StartJoin) == len(y.StartJoin) && forall(func(i int) bool { return 0 <= i && i < len(x.StartJoin) ==> x.StartJoin[i] == y.StartJoin[i] }) &&
+//@     len(x.RetryJoin) == len(y.RetryJoin) && forall(func(i int) bool { return 0 <= i && i < len(x.RetryJoin) ==> x.RetryJoin[i] == y.RetryJoin[i] })
+//@ }
+
+// merging is associative: (a+b)+c and a+(b+c) agree on everything
+//@ lemma merge_associative [C31] (a, b, c *Config) {
+//@   if !(wfConfig(a) && wfConfig(b) && wfConfig(c)) { return }
+//@   l := MergeConfig(MergeConfig(a, b), c)
+//@   r := MergeConfig(a, MergeConfig(b, c))
+//@   assert("settings", "C31", equalSettings(l, r))
+//@   assert("tags", "C31", equalTags(l, r))
+//@   assert("lists", "C31", equalLists(l, r))
+//@ }
+
 // END-OF-CONTRACTS
